@@ -76,10 +76,10 @@ func c25Write1RTT(tc *testConn, num packetNumber, frames ...debugFrame) {
 // ---------------------------------------------------------------- peer ACK frames
 
 type c25Ack struct {
-	M         int  `json:"conn_sends"`       // 1-RTT packets the conn sends before the ACK
-	SkipAfter int  `json:"skip_after"`       // 0: no number skipped; k: the number after the k-th packet is skipped
+	M         int  `json:"conn_sends"`        // 1-RTT packets the conn sends before the ACK
+	SkipAfter int  `json:"skip_after"`        // 0: no number skipped; k: the number after the k-th packet is skipped
 	PreAck    bool `json:"older_acked_first"` // the peer first (validly) acknowledges every packet sent so far
-	Mask      uint `json:"mask"`             // ACK frame: bit 0 = the never-sent next number N, bit i = N-i
+	Mask      uint `json:"mask"`              // ACK frame: bit 0 = the never-sent next number N, bit i = N-i
 }
 
 func c25RangesFromMask(mask uint, next packetNumber) (out []i64range[packetNumber]) {
@@ -222,7 +222,8 @@ func c25CheckAck(w *vx.W, x c25Ack) {
 // Q0+26 (more ranges than ackState retains); 5 the peer acknowledges every
 // packet the conn sent so far (acks of ACKs); 6 35ms pass (delayed ACK timer).
 type c25Dup struct {
-	H []int `json:"history"`
+	Side string `json:"side,omitempty"` // "" or "server": the conn is a server; "client": a client
+	H    []int  `json:"history"`
 }
 
 const (
@@ -234,7 +235,11 @@ const (
 func c25CheckDup(w *vx.W, x c25Dup) {
 	const id = "C25/peer-dup/"
 	c25Bubble(w, "peer-dup", func(t *testing.T) {
-		tc := newTestConn(t, serverSide, permissiveTransportParameters)
+		side := serverSide
+		if x.Side == "client" {
+			side = clientSide
+		}
+		tc := newTestConn(t, side, permissiveTransportParameters)
 		tc.handshake()
 		peerSent := map[packetNumber]bool{}
 		q0 := tc.peerNextPacketNum[appDataSpace]
@@ -272,7 +277,7 @@ func c25CheckDup(w *vx.W, x c25Dup) {
 			switch {
 			case k < 4:
 				num := q0 + packetNumber(k)
-				sid := newStreamID(clientSide, uniStream, int64(ev))
+				sid := newStreamID(side.peer(), uniStream, int64(ev))
 				peerSent[num] = true
 				dl = append(dl, delivery{ev, num, int64(ev)})
 				c25Write1RTT(tc, num, debugFrameStream{id: sid, off: 0, data: []byte{byte(0x40 + ev)}})
@@ -352,8 +357,8 @@ func c25CheckDup(w *vx.W, x c25Dup) {
 
 func c25PartC(c *vx.Ctx) {
 	c.Rule("part peer-ack: a real server Conn after the handshake sends m in {1,3} 1-RTT packets, with no number or the number after the k-th packet (k=1..m) skipped (Conn.skip.skip set white-box), optionally the peer first acknowledges exactly the sent packets; then every non-empty ACK frame over the numbers [first sent, next never-sent number] is delivered. Expected: covers a never-sent or skipped number => CONNECTION_CLOSE with PROTOCOL_VIOLATION on the wire; otherwise no CONNECTION_CLOSE.")
-	c.Rule("part peer-dup: every history of length <= 3 (thorough 4; quick adds the length-4 histories deliver,deliver,X,deliver) over {deliver peer packet Q0+0..3 (each delivery carries one byte on a stream unique to the delivery), burst of nine single-packet ranges, peer acks everything the conn sent, 35ms pass}; at the end the streams are read: for every packet number at most one delivery may have taken effect; every ACK frame the conn put on the wire may only cover numbers the peer sent. Non-trivial = at least one delivery took effect.")
-	c.Assume("parts peer-*: server side only, application-data space only; numbers used during the handshake are treated as received")
+	c.Rule("part peer-dup: for a server Conn and for a client Conn after the handshake, every history of length <= 3 (thorough 4; quick adds the length-4 histories deliver,deliver,X,deliver) over {deliver peer packet Q0+0..3 (each delivery carries one byte on a stream unique to the delivery), burst of nine single-packet ranges, peer acks everything the conn sent, 35ms pass}; at the end the streams are read: for every packet number at most one delivery may have taken effect; every ACK frame the conn put on the wire may only cover numbers the peer sent. Non-trivial = at least one delivery took effect.")
+	c.Assume("part peer-ack: server side only, application-data space only. Part peer-dup: application-data space only (the Initial and Handshake spaces are the subject of part peer-dup-hs); numbers used during the handshake are treated as received")
 	vx.Enumerate(c, "peer-ack", vx.Opts{Serial: true, Crumb: true}, func(yield func(c25Ack) bool) {
 		for _, m := range []int{1, 3} {
 			for sk := 0; sk <= m; sk++ {
@@ -373,18 +378,23 @@ func c25PartC(c *vx.Ctx) {
 	}, c25CheckAck)
 	maxLen := vx.Pick(c, 3, 4)
 	vx.Enumerate(c, "peer-dup", vx.Opts{Serial: true, Crumb: true}, func(yield func(c25Dup) bool) {
-		ok := vx.Strings([]int{0, 1, 2, 3, c25EvBurst, c25EvAck, c25EvSleep}, 1, maxLen, func(h []int) bool {
-			return yield(c25Dup{h})
-		})
-		if !ok || maxLen >= 4 {
-			return
-		}
-		for a := 0; a < 4; a++ {
-			for b := 0; b < 4; b++ {
-				for _, xv := range []int{c25EvBurst, c25EvAck, c25EvSleep} {
-					for d := 0; d < 4; d++ {
-						if !yield(c25Dup{[]int{a, b, xv, d}}) {
-							return
+		for _, side := range []string{"server", "client"} {
+			ok := vx.Strings([]int{0, 1, 2, 3, c25EvBurst, c25EvAck, c25EvSleep}, 1, maxLen, func(h []int) bool {
+				return yield(c25Dup{side, h})
+			})
+			if !ok {
+				return
+			}
+			if maxLen >= 4 {
+				continue
+			}
+			for a := 0; a < 4; a++ {
+				for b := 0; b < 4; b++ {
+					for _, xv := range []int{c25EvBurst, c25EvAck, c25EvSleep} {
+						for d := 0; d < 4; d++ {
+							if !yield(c25Dup{side, []int{a, b, xv, d}}) {
+								return
+							}
 						}
 					}
 				}
